@@ -26,6 +26,7 @@ EXPLANATION = (
     "  C13.attach is included: the serializer must travel with the message on every path of Message.write / MessageType.log / Action._start / finish, or the message is never validated."
     "  C03.failfields (the failed end message carries the status / exception / reason computed by finish over the extractor's fields, decided on the ordered layers of the dict construction) is part of this property."
     '  When capture_logging keeps the previous logger elsewhere than in a local, the restore must still be a registered cleanup or a finally; a restore that runs only after the assertion returns is a violation.'
+    '  An allowed-key set kept on the serializer is followed to its class-level value and per-instance extension; |= on a class-level mutable set is shared state.'
 )
 RULE = "obligation = rule instance bound to a constant / loop / call site of _validation.py, _output.py, testing.py; non-trivial = expressions or CFG paths examined"
 ASSUMPTIONS = ["what each user-supplied validator accepts is not decided", "unittest runs registered cleanups for pass, fail, error and skip"]
